@@ -25,6 +25,7 @@ WITNESS = [('Q', 0, 1), ('R', 7), ('CMP',), ('P', 0, 0, 2), ('R', 7), ('CMP',)]
 # witness of C16_zdot_of_disabled_element_refuted on system 5 (LinearBushing is element 0 there)
 ZWITNESS = [('U', 0, 1), ('R', 8), ('E', 0, 0), ('R', 8), ('CMP',)]
 ZKEY = 'disabled-force-element-stale-zdot'
+MKEY = 'multipliers-unwritten-when-all-mobilities-prescribed'
 
 def scan_table(ctx):
     """regenerate coq/Gen/C16_table_gen.v from the tree under test (written only if changed, so unchanged trees do not re-prove)"""
@@ -177,9 +178,9 @@ def split_blocks(out):
         elif cur is not None and l: B[cur].append(l)
     return B
 
-def run_both(exe, drv, m, hists, old=False):
+def run_both(exe, drv, m, hists, old=False, env=None):
     a, b = texts(m, hists)
-    r1, o1, e1 = sh([exe], input=a, timeout=1800)
+    r1, o1, e1 = sh([exe], input=a, timeout=1800, env=env)
     r2, o2, e2 = sh([drv, 'run'] + (['old'] if old else []), input=b, timeout=1800)
     return r1, split_blocks(o1), r2, split_blocks(o2), e1
 
@@ -205,7 +206,7 @@ def judge(m, ops, A, M):
     for l in st:
         if l.strip() != 'ST' and prob is None: prob = ('model predicts stale results (table unsound): ' + l, 'model-stale')
     for k, l in enumerate(cmps):
-        mm = re.match(r'CMP stage=(\d+) n=(\d+) bitwise=(\d+) ndiff=(\d+) maxrel=(\S+) names=(\S+) first=(.*)', l)
+        mm = re.match(r'CMP stage=(\d+) n=(\d+) bitwise=(\d+) ndiff=(\d+) maxrel=(\S+) names=(\S+) first=(\S+) ', l)
         stats['cmp_values'] += int(mm.group(2)); stats['cmp_bitwise'] += int(mm.group(3))
         if int(mm.group(4)) > 0:
             if mm.group(6) == 'zdot' and k < len(zdis) and zdis[k]:
@@ -258,6 +259,21 @@ def witness(ctx, exe, drv, L):
             ctx.report(ZKEY, 'zdot of a disabled LinearBushing keeps the value computed while it was enabled: ' + st2['zdot_line'],
                        {'failing_input': fmt(zw), 'system': sys_line(mz).strip(), 'theorem': 'C16_zdot_of_disabled_element_refuted'})
         if prob2: ctx.broken.append(('witness:zdot', prob2[0]))
+    # multipliers with every mobility prescribed and a constraint enabled: FactorQTZ::solve of the zero matrix leaves them unwritten
+    mm_ = [x for x in L if x['ncons'] and x['nlock'] == x['nb']]
+    if mm_:
+        mm_ = mm_[0]
+        mw = [('LA', i, 1, i) for i in range(1, mm_['nb'] + 1)] + [('R', 8), ('CMP',)]
+        # glibc's MALLOC_PERTURB_ fills every malloc'ed block with a fixed byte pattern: unwritten results become visible deterministically
+        r1, A, r2, M, _ = run_both(exe, drv, mm_, [('m', mw)], env={'MALLOC_PERTURB_': '165'})
+        n3, nc3, prob3, st3 = judge(mm_, mw, A.get('m', []), M.get('m', []))
+        cm = ([l for l in A.get('m', []) if l.startswith('CMP')] or ['<none>'])[-1]
+        g = re.search(r'mulgarbage=(\S+)', cm); g = float(g.group(1)) if g else 0.0
+        ctx.extra['multipliers_witness'] = {'history': fmt(mw), 'system': sys_line(mm_).strip(), 'max_abs_multiplier': g, 'reproduces': g != 0.0}
+        if g != 0.0:
+            ctx.report(MKEY, 'all mobilities locked, Rod constraint enabled: getMultipliers() returns unwritten memory (|lambda| = %r; the rank-0 least-squares solution is 0)' % g,
+                       {'failing_input': fmt(mw), 'system': sys_line(mm_).strip()})
+        if prob3: ctx.broken.append(('witness:multipliers', prob3[0]))
     return n, nc
 
 def correspondence(ctx, exe, drv, L, nper, maxops=30, cmp_every=False, tag='h'):
